@@ -81,6 +81,15 @@ func (g *G) setList(d int, typ string) ([]*dump.T, []Tok) {
 			toks = append(toks, sym(","))
 		}
 		v := g.Val(d)
+		if typ == "SetClause" && g.SetQual != "" && g.R.Intn(3) == 0 && g.ok("merge-qualified-set") {
+			// a MERGE assignment target qualified with the target table or its alias: kept as one dotted name
+			g.use("merge-qualified-set")
+			toks = cat(toks, one(sym(g.SetQual+"."+c)), one(sym("=")), g.wrap(v, PrecOr))
+			g.P.Columns[c] = true
+			g.P.QColumns[g.SetQual+"."+c] = true
+			ts = append(ts, dump.N("SetClause", "Column", g.SetQual+"."+c, "Value", v.T))
+			continue
+		}
 		toks = cat(toks, one(sym(c)), one(sym("=")), g.wrap(v, PrecOr))
 		g.P.Columns[c] = true
 		g.P.QColumns[c] = true
@@ -113,7 +122,7 @@ func (g *G) Insert(d int) X {
 		toks = cat(toks, q.Toks)
 	} else {
 		toks = cat(toks, kw("VALUES"))
-		nrows := 1 + g.R.Intn(2)
+		nrows := 1 + g.R.Intn(3)
 		w := ncols
 		if w == 0 {
 			w = 1 + g.R.Intn(3)
@@ -125,7 +134,12 @@ func (g *G) Insert(d int) X {
 			}
 			toks = append(toks, sym("("))
 			var row []*dump.T
-			for c := 0; c < w; c++ {
+			rw := w
+			if r > 0 && g.R.Intn(4) == 0 && g.ok("ragged-values") {
+				rw = 1 + g.R.Intn(w+1) // the grammar does not ask the rows to be equally wide
+				g.use("ragged-values")
+			}
+			for c := 0; c < rw; c++ {
 				if c > 0 {
 					toks = append(toks, sym(","))
 				}
@@ -220,8 +234,10 @@ func (g *G) Merge(d int) X {
 	g.P.Tables[src] = true
 	t := dump.N("MergeStatement", "TargetTable", dump.N("TableReference", "Name", tgt), "SourceTable", dump.N("TableReference", "Name", src))
 	toks := cat(kw("MERGE INTO"), one(sym(tgt)))
+	mergeAlias := ""
 	if g.R.Intn(2) == 0 {
 		a := g.alias()
+		mergeAlias = a
 		t.Set("TargetAlias", a)
 		if g.R.Intn(2) == 0 {
 			toks = cat(toks, kw("AS"))
@@ -308,7 +324,12 @@ func (g *G) Merge(d int) X {
 		} else {
 			act.Set("ActionType", "UPDATE")
 			toks = cat(toks, kw("UPDATE SET"))
+			g.SetQual = tgt
+			if mergeAlias != "" {
+				g.SetQual = mergeAlias
+			}
 			sts, stoks := g.setList(d, "SetClause")
+			g.SetQual = ""
 			act.Set("SetClauses", sts)
 			toks = cat(toks, stoks)
 		}
